@@ -745,6 +745,9 @@ result_t NumberDataType::derive(int divisor, size_t bitCount, const NumberDataTy
     }
     divisor = static_cast<int>(combined);
   }
+  if (bitCount <= 0) {
+    bitCount = m_bitCount;  // unchanged length
+  }
   if (divisor == m_divisor && bitCount == m_bitCount) {
     *derived = this;
     return RESULT_OK;
@@ -752,8 +755,8 @@ result_t NumberDataType::derive(int divisor, size_t bitCount, const NumberDataTy
   if (-MAX_DIVISOR > divisor || divisor > MAX_DIVISOR) {
     return RESULT_ERR_OUT_OF_RANGE;
   }
-  if (bitCount <= 0 || bitCount == m_bitCount) {
-    bitCount = m_bitCount;
+  if (bitCount == m_bitCount) {
+    // unchanged length
   } else if (isAdjustableLength()) {
     if (m_bitCount < 8) {
       if (bitCount+m_firstBit > 8) {
@@ -767,15 +770,22 @@ result_t NumberDataType::derive(int divisor, size_t bitCount, const NumberDataTy
   }
   ostringstream str;
   str << m_id << ',' << static_cast<unsigned>(bitCount) << ',' << static_cast<signed>(divisor);
+  const NumberDataType* baseType = m_baseType ? m_baseType : this;
+  if (m_bitCount >= 8
+  && (m_minValue != baseType->m_minValue || m_maxValue != baseType->m_maxValue || m_incValue != baseType->m_incValue)) {
+    // an own value range is part of the identity (same key layout as in derive() by range)
+    str << ',' << static_cast<unsigned>(m_minValue) << ',' << static_cast<unsigned>(m_maxValue)
+    << ',' << static_cast<unsigned>(m_incValue);
+  }
   string key = str.str();
   *derived = static_cast<const NumberDataType*>(DataTypeList::getInstance()->get(key));
   if (*derived == nullptr) {
     if (m_bitCount < 8) {
       *derived = new NumberDataType(m_id, bitCount, m_flags, m_replacement,
-                                    m_firstBit, divisor, m_baseType ? m_baseType : this);
+                                    m_firstBit, divisor, baseType);
     } else {
       *derived = new NumberDataType(m_id, bitCount, m_flags, m_replacement,
-                                    m_minValue, m_maxValue, divisor, m_baseType ? m_baseType : this);
+                                    m_minValue, m_maxValue, m_incValue, divisor, baseType);
     }
     DataTypeList::getInstance()->add(*derived, key);
   }
